@@ -406,7 +406,7 @@ class C13(common.Prop):
             "well-conditioned = reference points >= 0.3 s apart at coordinate scale s (|x| <= 4 s), plane points non-collinear "
             "(|sin| >= 0.2), |normal_x| <= 0.9, every distribution group has 0 or >= 2 observations >= 0.2 s apart; model and "
             "implementation are compared within 1e-4 x scale (float32 data) / 1e-9 x scale (float64 data). non-trivial = the case "
-            "reaches the numeric code with at least one observed row (or, for lookups, a header with a known component); distinct by content hash")
+            "reaches the numeric code with at least one observed row (or, for lookups, a header with a known component); distinct by content hash " "Half of the by-name normalisations run on a pose derived by selection from a larger, already normalised pose; a single axis is also given as a bare Python / NumPy integer.")
     TRUSTED = ["Coq 8.16.1 kernel; Coq standard library Reals (three axioms listed in print_assumptions)",
                "harness/translate_c13.py (fail-closed ast translator)",
                "extraction: ExtrOcamlBasic, ExtrOCamlFloats, ExtrOCamlInt63; runner/driver.ml",
